@@ -71,3 +71,135 @@ Proof.
     destruct (has_key_assoc _ _ Hb) as [v Hv]. clear -Hv. unfold keys. induction (vs st) as [|[k w] t IH]; [discriminate|].
     cbn [assoc] in Hv. cbn [map fst]. destruct (Z.eqb k b) eqn:Ek; [left; now apply Z.eqb_eq|right; now apply IH].
 Qed.
+
+(* ================================================================== a merge keeps every reference alive (C09 for the merge path) *)
+Lemma replace_first_In_nodup o n l x : NoDup l -> In x (replace_first o n l) -> x = n \/ (In x l /\ x <> o).
+Proof. induction l as [|y t IH]; intros Hnd H; [destruct H|]. inversion Hnd as [|? ? Hy Hnd']; subst. cbn [replace_first] in H.
+  destruct (Z.eqb_spec y o) as [-> | Hyo].
+  - destruct H as [<- | H]; [left; reflexivity|]. right. split; [right; exact H|]. intros ->. contradiction.
+  - destruct H as [<- | H]; [right; split; [left; reflexivity|exact Hyo]|]. destruct (IH Hnd' H) as [-> | [H1 H2]]; [left; reflexivity|right; split; [right; exact H1|exact H2]]. Qed.
+Lemma remove_first_In_nodup o l x : NoDup l -> In x (remove_first o l) -> In x l /\ x <> o.
+Proof. induction l as [|y t IH]; intros Hnd H; [destruct H|]. inversion Hnd as [|? ? Hy Hnd']; subst. cbn [remove_first] in H.
+  destruct (Z.eqb_spec y o) as [-> | Hyo].
+  - split; [right; exact H|]. intros ->. contradiction.
+  - destruct H as [<- | H]; [split; [left; reflexivity|exact Hyo]|]. destruct (IH Hnd' H) as [H1 H2]. split; [right; exact H1|exact H2]. Qed.
+Lemma replace_first_nodup o n l : NoDup l -> ~ In n l -> NoDup (replace_first o n l).
+Proof. induction l as [|y t IH]; intros Hnd Hn; [constructor|]. inversion Hnd as [|? ? Hy Hnd']; subst. cbn [replace_first].
+  destruct (Z.eqb_spec y o) as [-> | Hyo].
+  - constructor; [intros H; apply Hn; right; exact H|exact Hnd'].
+  - constructor; [|apply IH; [exact Hnd'|intros H; apply Hn; right; exact H]].
+    intros H. destruct (replace_first_In_nodup o n t y Hnd' H) as [-> | [H1 _]]; [apply Hn; left; reflexivity|contradiction]. Qed.
+Lemma remove_first_nodup o l : NoDup l -> NoDup (remove_first o l).
+Proof. induction l as [|y t IH]; intros Hnd; [constructor|]. inversion Hnd as [|? ? Hy Hnd']; subst. cbn [remove_first].
+  destruct (Z.eqb y o); [exact Hnd'|]. constructor; [|apply IH; exact Hnd']. intros H. destruct (remove_first_In_nodup o t y Hnd' H) as [H1 _]. contradiction. Qed.
+
+(* replacing old by new in a duplicate-free cycle: old is gone, nothing else appears but new, no vertex is repeated *)
+Lemma cell_replace_spec old new cyc : NoDup cyc ->
+  NoDup (cell_replace_vertex old new cyc) /\ forall x, In x (cell_replace_vertex old new cyc) -> x = new \/ (In x cyc /\ x <> old).
+Proof. intros Hnd. unfold cell_replace_vertex. destruct (memZ new cyc) eqn:M.
+  - split; [apply remove_first_nodup; exact Hnd|]. intros x H. right. apply remove_first_In_nodup; assumption.
+  - assert (Hn : ~ In new cyc) by (intros H; apply memZ_spec in H; congruence).
+    split; [apply replace_first_nodup; assumption|]. intros x H. apply replace_first_In_nodup; assumption. Qed.
+
+Lemma edge_replace_spec old new (e : Z * Z) : fst e <> snd e -> (fst e = old \/ snd e = old) ->
+  let e' := edge_replace_vertex old new e in
+  (fst e' = new \/ (fst e' = fst e /\ fst e <> old)) /\ (snd e' = new \/ (snd e' = snd e /\ snd e <> old)).
+Proof. intros Hne Ho. unfold edge_replace_vertex. destruct (Z.eqb_spec (fst e) old) as [E | E]; cbn [fst snd].
+  - split; [left; reflexivity|right; split; [reflexivity|]]. intros H. apply Hne. congruence.
+  - split; [right; split; [reflexivity|exact E]|left; reflexivity]. Qed.
+
+Definition refs_ok (st : vstate) : Prop :=
+  (forall k a b, In (k, (a, b)) (es st) -> In a (keys (vs st)) /\ In b (keys (vs st))) /\
+  (forall c cyc v, In (c, cyc) (cs st) -> In v cyc -> In v (keys (vs st))).
+
+Lemma keys_del_key {A} (d : list (Z * A)) k x : In x (keys (del_key d k)) <-> In x (keys d) /\ x <> k.
+Proof. unfold keys, del_key. rewrite !in_map_iff. split.
+  - intros [[k' v] [E H]]. cbn [fst] in E. subst k'. apply filter_In in H. destruct H as [H1 H2]. cbn [fst] in H2.
+    split; [exists (x, v); split; [reflexivity|exact H1]|]. apply negb_true_iff, Z.eqb_neq in H2. exact H2.
+  - intros [[[k' v] [E H]] Hne]. cbn [fst] in E. subst k'. exists (x, v). split; [reflexivity|]. apply filter_In. split; [exact H|].
+    cbn [fst]. apply negb_true_iff, Z.eqb_neq. exact Hne. Qed.
+
+(* merging two present vertices of a mesh without self-loops and without repeated cycle vertices: every mesh edge still ends at existing
+   vertices, every cycle vertex still exists, the two merged vertices are referenced nowhere, and no cycle repeats a vertex *)
+Theorem join_two_keeps_references st mapper a b st' m' :
+  has_key (vs st) a = true -> has_key (vs st) b = true -> a <> b -> refs_ok st ->
+  (forall k p q, In (k, (p, q)) (es st) -> p <> q) -> (forall c cyc, In (c, cyc) (cs st) -> NoDup cyc) ->
+  join_two st mapper a b = Some (st', m') ->
+  refs_ok st' /\ (forall c cyc, In (c, cyc) (cs st') -> NoDup cyc /\ ~ In a cyc /\ ~ In b cyc) /\
+  (forall k p q, In (k, (p, q)) (es st') -> p <> a /\ p <> b /\ q <> a /\ q <> b).
+Proof. intros Ha Hb Hab [Re Rc] Hloop Hnd H.
+  destruct (join_two_spec st mapper a b st' m' Ha Hb H) as [x0 [y0 [x1 [y1 [Ea [Eb [Hfresh [Hvs _]]]]]]]].
+  set (nid := get_unused_id (keys (vs st))) in *.
+  assert (Hkeys : forall x, In x (keys (vs st')) <-> (In x (keys (vs st)) \/ x = nid) /\ x <> a /\ x <> b).
+  { intros x. rewrite Hvs, !keys_del_key. unfold keys. rewrite map_app, in_app_iff. cbn [map fst In]. intuition. }
+  unfold join_two in H. rewrite (lookup_present st mapper a Ha), (lookup_present st mapper b Hb), Ea, Eb in H.
+  destruct (filter _ (es st)) as [|[ce ee] rest] eqn:Ecommon; [discriminate|]. injection H as Hst _. fold nid in Hst.
+  assert (Hna : nid <> a) by (intros E; apply Hfresh; rewrite E; destruct (has_key_assoc _ _ Ha) as [w Hw]; clear -Hw; unfold keys;
+    induction (vs st) as [|[k w'] t IH]; [discriminate|]; cbn [assoc] in Hw; cbn [map fst]; destruct (Z.eqb k a) eqn:Ek; [left; now apply Z.eqb_eq|right; now apply IH]).
+  assert (Hnb : nid <> b) by (intros E; apply Hfresh; rewrite E; destruct (has_key_assoc _ _ Hb) as [w Hw]; clear -Hw; unfold keys;
+    induction (vs st) as [|[k w'] t IH]; [discriminate|]; cbn [assoc] in Hw; cbn [map fst]; destruct (Z.eqb k b) eqn:Ek; [left; now apply Z.eqb_eq|right; now apply IH]).
+  (* cycles *)
+  assert (Cyc : forall c cyc, In (c, cyc) (cs st') -> NoDup cyc /\ ~ In a cyc /\ ~ In b cyc /\ forall x, In x cyc -> In x (keys (vs st'))).
+  { intros c cyc Hin. rewrite <- Hst in Hin. cbn [cs] in Hin. apply in_map_iff in Hin. destruct Hin as [[c1 cyc1] [E1 Hin1]]. cbn [fst snd] in E1.
+    apply in_map_iff in Hin1. destruct Hin1 as [[c0 cyc0] [E0 Hin0]]. cbn [fst snd] in E0. inversion E0; subst c1 cyc1. inversion E1; subst c cyc. clear E0 E1.
+    pose proof (Hnd c0 cyc0 Hin0) as N0. pose proof (Rc c0 cyc0) as R0. specialize (R0) with (1 := Hin0).
+    assert (Hnid0 : ~ In nid cyc0) by (intros Hx; apply Hfresh; exact (R0 nid Hx)).
+    (* step 1 *)
+    set (cyc1 := if memZ a cyc0 then cell_replace_vertex a nid cyc0 else cyc0).
+    assert (S1 : NoDup cyc1 /\ ~ In a cyc1 /\ forall x, In x cyc1 -> x = nid \/ (In x cyc0 /\ x <> a)).
+    { unfold cyc1. destruct (memZ a cyc0) eqn:Ma.
+      - destruct (cell_replace_spec a nid cyc0 N0) as [N1 I1]. split; [exact N1|]. split; [|exact I1].
+        intros Hx. destruct (I1 a Hx) as [E | [_ E]]; [apply Hna; symmetry; exact E|apply E; reflexivity].
+      - split; [exact N0|]. split; [intros Hx; apply memZ_spec in Hx; congruence|]. intros x Hx. right. split; [exact Hx|]. intros ->. apply memZ_spec in Hx. congruence. }
+    destruct S1 as [N1 [A1 I1]].
+    set (cyc2 := if memZ b cyc1 then cell_replace_vertex b nid cyc1 else cyc1).
+    assert (S2 : NoDup cyc2 /\ ~ In b cyc2 /\ forall x, In x cyc2 -> x = nid \/ (In x cyc1 /\ x <> b)).
+    { unfold cyc2. destruct (memZ b cyc1) eqn:Mb.
+      - destruct (cell_replace_spec b nid cyc1 N1) as [N2 I2]. split; [exact N2|]. split; [|exact I2].
+        intros Hx. destruct (I2 b Hx) as [E | [_ E]]; [apply Hnb; symmetry; exact E|apply E; reflexivity].
+      - split; [exact N1|]. split; [intros Hx; apply memZ_spec in Hx; congruence|]. intros x Hx. right. split; [exact Hx|]. intros ->. apply memZ_spec in Hx. congruence. }
+    destruct S2 as [N2 [B2 I2]]. fold cyc1. fold cyc2. split; [exact N2|]. split.
+    - intros Hx. destruct (I2 a Hx) as [E | [Hx1 _]]; [apply Hna; symmetry; exact E|contradiction].
+    - split; [exact B2|]. intros x Hx. apply Hkeys. destruct (I2 x Hx) as [-> | [Hx1 Hxb]].
+      + split; [right; reflexivity|split; assumption].
+      + destruct (I1 x Hx1) as [-> | [Hx0 Hxa]]; [split; [right; reflexivity|split; assumption]|]. split; [left; exact (R0 x Hx0)|split; assumption]. }
+  (* edges *)
+  assert (Edg : forall k p q, In (k, (p, q)) (es st') -> (p <> a /\ p <> b /\ q <> a /\ q <> b) /\ In p (keys (vs st')) /\ In q (keys (vs st'))).
+  { intros k p q Hin. rewrite <- Hst in Hin. cbn [es] in Hin. apply in_map_iff in Hin. destruct Hin as [[k2 [p1 q1]] [E2 Hin2]]. cbn [fst snd] in E2.
+    injection E2 as Hk Hpq. subst k2.
+    apply in_map_iff in Hin2. destruct Hin2 as [[k1 [p0 q0]] [E1 Hin1]]. cbn [fst snd] in E1. injection E1 as Hk1 He1. subst k1.
+    unfold del_key in Hin1. apply filter_In in Hin1. destruct Hin1 as [Hin0 _].
+    pose proof (Hloop k p0 q0 Hin0) as L0. destruct (Re k p0 q0 Hin0) as [Kp Kq].
+    assert (Hnp : p0 <> nid) by (intros E; apply Hfresh; rewrite <- E; exact Kp). assert (Hnq : q0 <> nid) by (intros E; apply Hfresh; rewrite <- E; exact Kq).
+    (* step 1: occurrences of a become nid *)
+    assert (S1 : (p1 = nid \/ (p1 = p0 /\ p0 <> a)) /\ (q1 = nid \/ (q1 = q0 /\ q0 <> a))).
+    { destruct (Z.eqb_spec p0 a) as [Ep | Ep]; cbn [orb] in He1.
+      - pose proof (edge_replace_spec a nid (p0, q0)) as Hs. cbn [fst snd] in Hs. specialize (Hs L0 (or_introl Ep)). rewrite He1 in Hs. exact Hs.
+      - destruct (Z.eqb_spec q0 a) as [Eq | Eq].
+        + pose proof (edge_replace_spec a nid (p0, q0)) as Hs. cbn [fst snd] in Hs. specialize (Hs L0 (or_intror Eq)). rewrite He1 in Hs. exact Hs.
+        + injection He1 as <- <-. split; right; split; try reflexivity; assumption. }
+    destruct S1 as [Sp Sq].
+    (* step 2: occurrences of b become nid *)
+    assert (S2 : (p = nid \/ (p = p1 /\ p1 <> b)) /\ (q = nid \/ (q = q1 /\ q1 <> b))).
+    { destruct (Z.eqb_spec p1 b) as [Ep | Ep]; cbn [orb] in Hpq.
+      - unfold edge_replace_vertex in Hpq. cbn [fst snd] in Hpq. rewrite Ep, Z.eqb_refl in Hpq. injection Hpq as <- <-. split; [left; reflexivity|].
+        destruct (Z.eq_dec q1 b) as [Eqb | Nqb]; [|right; split; [reflexivity|exact Nqb]].
+        exfalso. destruct Sp as [Sp | [Sp _]]; [apply Hnb; congruence|]. destruct Sq as [Sq | [Sq _]]; [apply Hnb; congruence|]. apply L0. congruence.
+      - destruct (Z.eqb_spec q1 b) as [Eq | Eq].
+        + unfold edge_replace_vertex in Hpq. cbn [fst snd] in Hpq. destruct (Z.eqb_spec p1 b); [contradiction|]. injection Hpq as <- <-.
+          split; [right; split; [reflexivity|exact Ep]|left; reflexivity].
+        + injection Hpq as <- <-. split; right; split; try reflexivity; assumption. }
+    destruct S2 as [Tp Tq].
+    assert (Fp : p = nid \/ (p = p0 /\ p0 <> a /\ p0 <> b)).
+    { destruct Tp as [-> | [-> Hpb]]; [left; reflexivity|]. destruct Sp as [-> | [-> Hpa]]; [left; reflexivity|right; repeat split; assumption]. }
+    assert (Fq : q = nid \/ (q = q0 /\ q0 <> a /\ q0 <> b)).
+    { destruct Tq as [-> | [-> Hqb]]; [left; reflexivity|]. destruct Sq as [-> | [-> Hqa]]; [left; reflexivity|right; repeat split; assumption]. }
+    split; [|split].
+    - destruct Fp as [-> | [-> [? ?]]], Fq as [-> | [-> [? ?]]]; repeat split; assumption.
+    - apply Hkeys. destruct Fp as [-> | [-> [? ?]]]; [split; [right; reflexivity|split; assumption]|split; [left; exact Kp|split; assumption]].
+    - apply Hkeys. destruct Fq as [-> | [-> [? ?]]]; [split; [right; reflexivity|split; assumption]|split; [left; exact Kq|split; assumption]]. }
+  split; [split|split].
+  - intros k p q Hin. apply (Edg k p q Hin).
+  - intros c cyc v Hin Hv. destruct (Cyc c cyc Hin) as [_ [_ [_ K]]]. apply K. exact Hv.
+  - intros c cyc Hin. destruct (Cyc c cyc Hin) as [N [A [B _]]]. repeat split; assumption.
+  - intros k p q Hin. apply (Edg k p q Hin). Qed.
